@@ -316,19 +316,14 @@ func checkStop(c stopCase) (nt bool, v *verdict) {
 			}
 		}
 	}
-	// every client connection is closed
+	// every client connection is closed (see heldOpen for why a probe is written first)
+	probe := []byte("x")
+	if c.Kind == "redis" {
+		probe = []byte("PING\r\n")
+	}
 	for i, cl := range clients {
-		cl.SetReadDeadline(time.Now().Add(5 * time.Second))
-		buf := make([]byte, 4096)
-		for {
-			_, err := cl.Read(buf)
-			if err == nil {
-				continue
-			}
-			if ne, ok := err.(net.Error); ok && ne.Timeout() {
-				return nt, &verdict{"downstream-connection-left-open", fmt.Sprintf("client connection %d is still open 5s after Stop returned", i)}
-			}
-			break
+		if heldOpen(cl, probe, 5*time.Second) {
+			return nt, &verdict{"downstream-connection-left-open", fmt.Sprintf("client connection %d is still open 5s after Stop returned", i)}
 		}
 	}
 	// every backend connection is closed, no goroutine of the service remains
@@ -351,6 +346,24 @@ func checkStop(c stopCase) (nt bool, v *verdict) {
 }
 
 var nameCtr int64
+
+// heldOpen reports whether the peer still holds the connection open d after the call: neither EOF nor a reset arrives.
+// The probe is written first so that a connection without a peer socket (never accepted by the service, its reset lost or
+// never sent) is answered with a reset instead of looking idle; the kernel retransmits the probe until it is.
+func heldOpen(cl net.Conn, probe []byte, d time.Duration) bool {
+	deadline := time.Now().Add(d)
+	cl.SetDeadline(deadline)
+	cl.Write(probe)
+	buf := make([]byte, 4096)
+	for {
+		_, err := cl.Read(buf)
+		if err == nil {
+			continue
+		}
+		ne, ok := err.(net.Error)
+		return ok && ne.Timeout()
+	}
+}
 
 func waitOr(ch chan struct{}, d time.Duration) chan struct{} {
 	out := make(chan struct{})
